@@ -247,6 +247,8 @@ func pinnedCases() []pinned {
 		innerCase("C11", "C11/hex_invalid_read_as_base64.json", "both", "c11", "PinService.Do", s)
 		s2, _, _, _, _ := baseSchema("p0037")
 		innerCase("C11", "C11/invalid_utf8_plain_text_400.json", "both", "c11", "PinService.Do", s2)
+		s3, _, _, _, _ := baseSchema("p0038")
+		innerCase("C11", "C11/binary_body_read_error_dispatched.json", "both", "c11", "PinService.Do", s3)
 	}
 	{
 		s, _, resp, _, _ := baseSchema("p0038")
